@@ -458,12 +458,13 @@ Proof.
   apply existsb_exists. exists n. split; [exact Hn | apply Nat.eqb_eq; exact En].
 Qed.
 
-Lemma qw_wadd : forall a b, a <> None -> b <> None ->
-  (match wadd a b with Some z => inject_Z z | None => 0 end ==
-   match a with Some z => inject_Z z | None => 0 end + match b with Some z => inject_Z z | None => 0 end)%Q
-  /\ wadd a b <> None.
+Definition qo (w : weight) : Q := match w with Some z => inject_Z z | None => 0%Q end.
+
+Lemma qw_wadd : forall (c e : ledge) old, ew c = wadd (ew e) old -> ew e <> None -> old <> None ->
+  (qw c == qw e + qo old)%Q /\ ew c <> None.
 Proof.
-  intros [x|] [y|] Ha Hb; try congruence. cbn [wadd]. split; [rewrite inject_Z_plus; reflexivity | discriminate].
+  intros c e old Hc Ha Hb. unfold qw. rewrite Hc. destruct (ew e) as [x|]; [|congruence].
+  destruct old as [y|]; [|congruence]. cbn [wadd qo]. split; [rewrite inject_Z_plus; reflexivity | discriminate].
 Qed.
 
 Lemma gg_edge_esel : forall q (ng ng1 : lgraph) (e : ledge) c1 c2 old,
@@ -490,12 +491,13 @@ Proof.
     assert (Hge : get_edge Nat.eqb ng c1 c2 = Err WrongMethod) by (unfold get_edge; rewrite Em; reflexivity).
     assert (Eo : old = Some 0%Z).
     { destruct Hold as [[Eo _]|[x [Ex _]]]; [exact Eo | congruence]. }
-    destruct (qw_wadd (ew e) old Hwe) as [Hq Hn]; [rewrite Eo; discriminate|].
+    destruct (qw_wadd c e old Hwc Hwe) as [Hq Hn]; [rewrite Eo; discriminate|].
     split.
     + intros x Hx. apply (Permutation_in _ HPm) in Hx. apply in_app_iff in Hx.
-      destruct Hx as [Hx|[Hx|[]]]; [exact (HS x Hx)|]. subst x. rewrite Hwc. exact Hn.
+      destruct Hx as [Hx|[Hx|[]]]; [exact (HS x Hx)|]. subst x. exact Hn.
     + rewrite (esel_perm q _ _ HPm), esel_app. cbn [esel]. rewrite Hu, Hv.
-      unfold qw at 1. rewrite Hwc, Hq, Eo. unfold qw. destruct (q (fst k) (snd k)); ring.
+      rewrite Eo in Hq. cbn [qo] in Hq.
+      destruct (q (fst k) (snd k)); [rewrite Hq|]; ring.
   - (* simple graph: the stored edge between c1 and c2, if any, is replaced *)
     pose proof (get_edge_spec Nat.eqb Nat.ltb neqb_spec nltb_asym nltb_total ng c1 c2 W) as Hge.
     rewrite Em, (In_names_existsb ng c1 Hc1), (In_names_existsb ng c2 Hc2) in Hge. cbn [negb orb] in Hge.
@@ -512,14 +514,14 @@ Proof.
     destruct (stored_between Nat.eqb Nat.ltb ng c1 c2) as [|x t] eqn:Esb.
     + assert (Eo : old = Some 0%Z).
       { destruct Hold as [[Eo _]|[x [Ex _]]]; [exact Eo | congruence]. }
-      destruct (qw_wadd (ew e) old Hwe) as [Hq Hn]; [rewrite Eo; discriminate|].
+      destruct (qw_wadd c e old Hwc Hwe) as [Hq Hn]; [rewrite Eo; discriminate|].
       split.
       * intros x Hx. apply (Permutation_in _ HPm) in Hx. apply in_app_iff in Hx.
         destruct Hx as [Hx|[Hx|[]]]; [apply filter_In in Hx; exact (HS x (proj1 Hx))|].
-        subst x. rewrite Hwc. exact Hn.
+        subst x. exact Hn.
       * rewrite (esel_perm q _ _ HPm), esel_app. cbn [esel]. rewrite Hu, Hv.
-        unfold qw at 1. rewrite Hwc, Hq, Eo. rewrite Hsplit. cbn [esel]. unfold qw.
-        destruct (q (fst k) (snd k)); ring.
+        rewrite Eo in Hq. cbn [qo] in Hq. rewrite Hsplit. cbn [esel].
+        destruct (q (fst k) (snd k)); [rewrite Hq|]; ring.
     + assert (Et : t = []).
       { destruct (group Nat.eqb ng k) as [l|] eqn:Eg; [|discriminate].
         destruct (wf_egroup _ _ _ W _ _ Eg) as (_ & _ & _ & _ & _ & Hlen & _).
@@ -528,12 +530,181 @@ Proof.
       destruct (Hsb_in x (or_introl eq_refl)) as [Hxin [Hxu Hxv]].
       assert (Eo : old = ew x).
       { destruct Hold as [[_ [k0 Ek]]|[y [Ey Eo]]]; [congruence|]. rewrite Hge in Ey. inversion Ey. subst y. exact Eo. }
-      destruct (qw_wadd (ew e) old Hwe) as [Hq Hn]; [rewrite Eo; exact (HS x Hxin)|].
+      destruct (qw_wadd c e old Hwc Hwe) as [Hq Hn]; [rewrite Eo; exact (HS x Hxin)|].
       split.
       * intros y Hy. apply (Permutation_in _ HPm) in Hy. apply in_app_iff in Hy.
         destruct Hy as [Hy|[Hy|[]]]; [apply filter_In in Hy; exact (HS y (proj1 Hy))|].
-        subst y. rewrite Hwc. exact Hn.
+        subst y. exact Hn.
       * rewrite (esel_perm q _ _ HPm), esel_app. cbn [esel]. rewrite Hu, Hv.
-        unfold qw at 1. rewrite Hwc, Hq, Eo. rewrite Hsplit. cbn [esel]. rewrite Hxu, Hxv. unfold qw.
-        destruct (q (fst k) (snd k)); ring.
+        rewrite Eo in Hq. change (qo (ew x)) with (qw x) in Hq. rewrite Hsplit. cbn [esel]. rewrite Hxu, Hxv.
+        destruct (q (fst k) (snd k)); [rewrite Hq|]; ring.
 Qed.
+
+(* the relabelled edge in storage orientation *)
+Definition relab_edge (s : specs) (com : nat -> nat) (e : ledge) : ledge :=
+  canonn s (mkedge (com (eu e)) (com (ev e)) (ew e) None).
+
+Lemma gg_edges_esel : forall q (g : lgraph) (com : nat -> nat) n2c (ng0 : lgraph),
+  (forall u c, lookup Nat.eqb u n2c = Some c -> In c (namesn ng0)) ->
+  (forall u c, lookup Nat.eqb u n2c = Some c -> com u = c) ->
+  forall (es : list ledge) (ng ng' : lgraph),
+  WFn ng -> sp ng = gg_specs (sp g) -> nodes_vec ng = nodes_vec ng0 -> SomeW ng ->
+  (forall e, In e es -> ew e <> None) ->
+  ofold (gg_edge n2c) es ng = Ok ng' ->
+  SomeW ng' /\
+  (esel q (get_all_edges ng') ==
+   esel q (map (relab_edge (gg_specs (sp g)) com) es) + esel q (get_all_edges ng))%Q.
+Proof.
+  intros q g com n2c ng0 Hn2c Hcom es. induction es as [|e t IH]; intros ng ng' W Hsp Hvec HS Hw H;
+    cbn [ofold] in H.
+  - inversion H. subst ng'. split; [exact HS|]. cbn [map esel]. ring.
+  - apply bind_ok in H. destruct H as [ng1 [Hstep H]].
+    assert (Hn : forall u c, lookup Nat.eqb u n2c = Some c -> In c (namesn ng)).
+    { intros u c Hc. unfold names. rewrite Hvec. exact (Hn2c u c Hc). }
+    destruct (gg_edge_step n2c ng e ng1 W Hn Hstep)
+      as [c1 [c2 [old [Hc1 [Hc2 [Hold [Hadd [W1 [Hsp1 Hvec1]]]]]]]]].
+    assert (Hsl : selfloops (sp ng) = true) by (rewrite Hsp; reflexivity).
+    assert (Hdd : dd (sp ng) = DKeepLast) by (rewrite Hsp; reflexivity).
+    destruct (gg_edge_esel q ng ng1 e c1 c2 old W Hsl Hdd (Hn _ _ Hc1) (Hn _ _ Hc2) HS
+                           (Hw e (or_introl eq_refl)) Hold Hadd) as [HS1 Hq1].
+    destruct (IH ng1 ng' W1 (eq_trans Hsp1 Hsp) (eq_trans Hvec1 Hvec) HS1
+                 (fun x Hx => Hw x (or_intror Hx)) H) as [HS' Hq'].
+    split; [exact HS'|]. rewrite Hq', Hq1. cbn [map esel].
+    assert (Hk : (eu (relab_edge (gg_specs (sp g)) com e), ev (relab_edge (gg_specs (sp g)) com e))
+                 = cn Nat.ltb (sp ng) c1 c2).
+    { unfold relab_edge. rewrite canon_cn. cbn [eu ev]. rewrite Hsp, (Hcom _ _ Hc1), (Hcom _ _ Hc2). reflexivity. }
+    assert (Hu : eu (relab_edge (gg_specs (sp g)) com e) = fst (cn Nat.ltb (sp ng) c1 c2)) by (rewrite <- Hk; reflexivity).
+    assert (Hv : ev (relab_edge (gg_specs (sp g)) com e) = snd (cn Nat.ltb (sp ng) c1 c2)) by (rewrite <- Hk; reflexivity).
+    rewrite Hu, Hv.
+    assert (Hqw : qw (relab_edge (gg_specs (sp g)) com e) = qw e).
+    { unfold qw, relab_edge. rewrite canon_ew. reflexivity. }
+    rewrite Hqw. ring.
+Qed.
+
+Notation wedgeN := (@wedge nat).
+
+Lemma wedges_some_w : forall (E : list ledge) ws, wedges_of true E = Some ws ->
+  forall e, In e E -> ew e <> None.
+Proof.
+  intro E. induction E as [|h t IH]; intros ws H e He; [destruct He|]. cbn [wedges_of wedge_of] in H.
+  destruct (ew h) as [z|] eqn:Eh; [|discriminate].
+  destruct (wedges_of true t) as [r|] eqn:Et; [|discriminate].
+  destruct He as [He|He]; [subst h; congruence | exact (IH r eq_refl e He)].
+Qed.
+
+Lemma esel_wedges : forall (p : wedgeN -> bool) (E : list ledge) ws,
+  ends_only p -> wedges_of true E = Some ws ->
+  (wsel p ws == esel (fun u v => p (u, v, 0%Q)) E)%Q.
+Proof.
+  intros p E. induction E as [|h t IH]; intros ws Hp H; cbn [wedges_of wedge_of] in H.
+  - inversion H. reflexivity.
+  - destruct (ew h) as [z|] eqn:Eh; [|discriminate].
+    destruct (wedges_of true t) as [r|] eqn:Et; [|discriminate]. inversion H. subst ws.
+    rewrite (@wsel_cons nat). cbn [esel]. rewrite <- (IH r Hp eq_refl).
+    assert (Hpe : p (eu h, ev h, inject_Z z) = p (eu h, ev h, 0%Q)) by (apply Hp; reflexivity).
+    rewrite Hpe. unfold qw. rewrite Eh. cbn [ww snd]. destruct (p (eu h, ev h, 0%Q)); ring.
+Qed.
+
+Lemma esel_relab_wedges : forall (p : wedgeN -> bool) s (com : nat -> nat) (E : list ledge) ws,
+  ends_only p -> wedges_of true E = Some ws ->
+  (wsel p (map (canon_e (negb (directed s))) (map (relabel com) ws))
+   == esel (fun u v => p (u, v, 0%Q)) (map (relab_edge s com) E))%Q.
+Proof.
+  intros p s com E. induction E as [|h t IH]; intros ws Hp H; cbn [wedges_of wedge_of] in H.
+  - inversion H. reflexivity.
+  - destruct (ew h) as [z|] eqn:Eh; [|discriminate].
+    destruct (wedges_of true t) as [r|] eqn:Et; [|discriminate]. inversion H. subst ws.
+    cbn [map]. rewrite (@wsel_cons nat). cbn [esel]. rewrite <- (IH r Hp eq_refl).
+    unfold relab_edge, canon, canon_e, relabel, qw. cbn [wu wv ww fst snd eu ev ew].
+    destruct (negb (directed s) && Nat.ltb (com (ev h)) (com (eu h)));
+      cbn [a_reversed wu wv ww fst snd eu ev ew]; rewrite Eh.
+    + assert (Hpe : p (com (ev h), com (eu h), inject_Z z) = p (com (ev h), com (eu h), 0%Q)) by (apply Hp; reflexivity).
+      rewrite Hpe. destruct (p (com (ev h), com (eu h), 0%Q)); ring.
+    + assert (Hpe : p (com (eu h), com (ev h), inject_Z z) = p (com (eu h), com (ev h), 0%Q)) by (apply Hp; reflexivity).
+      rewrite Hpe. destruct (p (com (eu h), com (ev h), 0%Q)); ring.
+Qed.
+
+(* Newman's selections of the generated graph are those of the relabelled (and canonically
+   oriented) edge list of the old graph: g2 carries exactly the aggregated edge weights.
+   Neither WF g nor simplicity of g is needed: on a multi-edge graph get_edge fails with
+   WrongMethod and every relabelled edge is appended on its own. *)
+Theorem generate_graph_aggregates : forall (g : lgraph) I g2 (com : nat -> nat) es es2,
+  generate_graph g I = Ok g2 ->
+  (forall i l u, nth_error I i = Some l -> In u l -> com u = i) ->
+  wedges_of true (get_all_edges g) = Some es ->
+  wedges_of true (get_all_edges g2) = Some es2 ->
+  forall p, ends_only p ->
+    (wsel p es2 == wsel p (map (canon_e (negb (directed (sp g)))) (map (relabel com) es)))%Q.
+Proof.
+  intros g I g2 com es es2 H Hcom Hes Hes2 p Hp.
+  destruct (generate_graph_phases g I g2 H) as [ng0 [n2c [HP H2]]].
+  pose proof (P1_n2c_names _ _ _ _ HP) as Hn2c.
+  assert (Hc : forall u c, lookup Nat.eqb u n2c = Some c -> com u = c).
+  { intros u c Hl. destruct (p1_n2c_a _ _ _ _ HP u c Hl) as [l [Hl1 Hl2]]. exact (Hcom c l u Hl1 Hl2). }
+  set (q := fun u v : nat => p (u, v, 0%Q)).
+  assert (HS0 : SomeW ng0).
+  { intros x Hx. unfold get_all_edges in Hx. rewrite (p1_edges _ _ _ _ HP) in Hx. destruct Hx. }
+  destruct (gg_edges_esel q g com n2c ng0 Hn2c Hc (sort_by edge_ltb (get_all_edges g)) ng0 g2
+              (p1_wf _ _ _ _ HP) (p1_sp _ _ _ _ HP) eq_refl HS0) as [_ Hq]; [|exact H2|].
+  { intros e He. apply sort_by_In in He. exact (wedges_some_w _ _ Hes e He). }
+  rewrite (esel_wedges p _ _ Hp Hes2). fold q. rewrite Hq.
+  assert (E0 : get_all_edges ng0 = []) by (unfold get_all_edges; rewrite (p1_edges _ _ _ _ HP); reflexivity).
+  rewrite E0. cbn [esel].
+  rewrite (esel_perm q _ _ (Permutation_map (relab_edge (gg_specs (sp g)) com)
+                              (sort_by_permutation edge_ltb (get_all_edges g)))).
+  rewrite (esel_relab_wedges p (gg_specs (sp g)) com _ _ Hp Hes). fold q. cbn [gg_specs directed]. ring.
+Qed.
+
+(* the same with the hypotheses of the task statement, for reference *)
+Corollary generate_graph_aggregates_simple : forall (g : lgraph) I g2 (com : nat -> nat) es es2,
+  WF Nat.eqb Nat.ltb g -> multi (sp g) = false ->
+  generate_graph g I = Ok g2 ->
+  (forall i l u, nth_error I i = Some l -> In u l -> com u = i) ->
+  wedges_of true (get_all_edges g) = Some es ->
+  wedges_of true (get_all_edges g2) = Some es2 ->
+  forall p, ends_only p ->
+    (wsel p es2 == wsel p (aggregate (directed (sp g)) (map (relabel com) es)))%Q.
+Proof.
+  intros g I g2 com es es2 _ _ H Hcom Hes Hes2 p Hp.
+  rewrite (aggregate_wsel p (directed (sp g)) _ Hp).
+  exact (generate_graph_aggregates g I g2 com es es2 H Hcom Hes Hes2 p Hp).
+Qed.
+
+(* ---------------- non-vacuity: the path 0 - 1 - 2 with parts {0,1}, {2} ---------------- *)
+Definition gg_example_graph : outcome lgraph :=
+  new_from_nodes_and_edges Nat.eqb Nat.ltb
+    [mknode 0 (Some [0]); mknode 1 (Some [1]); mknode 2 (Some [2])]
+    [mkedge 0 1 (Some 1%Z) None; mkedge 1 2 (Some 2%Z) None]
+    (mkspecs false DErr MCreate false true SErr).
+
+Example generate_graph_example :
+  match gg_example_graph with
+  | Ok g =>
+    match generate_graph g [[0; 1]; [2]] with
+    | Ok g2 => Some (gnames g2, attr_of g2 0, attr_of g2 1, get_all_edges g2)
+    | _ => None
+    end
+  | _ => None
+  end
+  = Some ([0; 1], [0; 1], [2],
+          [mkedge 0 0 (Some 1%Z) None; mkedge 0 1 (Some 2%Z) None]).
+Proof. vm_compute. reflexivity. Qed.
+
+(* accumulation: the triangle 0-1 (1), 1-2 (2), 0-2 (4) with parts {0}, {1,2}: the two edges
+   between the parts are merged into one edge of weight 1 + 4 *)
+Example generate_graph_example_merge :
+  match new_from_nodes_and_edges Nat.eqb Nat.ltb
+          [mknode 0 (Some [0]); mknode 1 (Some [1]); mknode 2 (Some [2])]
+          [mkedge 0 1 (Some 1%Z) None; mkedge 1 2 (Some 2%Z) None; mkedge 0 2 (Some 4%Z) None]
+          (mkspecs false DErr MCreate false true SErr) with
+  | Ok g =>
+    match generate_graph g [[0]; [1; 2]] with
+    | Ok g2 => Some (gnames g2, attr_of g2 0, attr_of g2 1, get_all_edges g2)
+    | _ => None
+    end
+  | _ => None
+  end
+  = Some ([0; 1], [0], [1; 2],
+          [mkedge 0 1 (Some 5%Z) None; mkedge 1 1 (Some 2%Z) None]).
+Proof. vm_compute. reflexivity. Qed.
+
